@@ -354,10 +354,10 @@ var vfC19Case int64
 
 type vfC19Bed struct {
 	bed *vfBed
-	m   *cluster // the member whose syncer is under test (behind the relay)
+	m   Cluster // the member whose syncer is under test (behind the relay)
 }
 
-func vfWaitConnected(m *cluster, key string, wait time.Duration) error {
+func vfWaitConnected(m Cluster, key string, wait time.Duration) error {
 	deadline := time.Now().Add(wait)
 	var err error
 	for time.Now().Before(deadline) {
